@@ -371,7 +371,7 @@ class World:
         import tenpy.tools.hdf5_io as h5mod
         tmpfs = simfs.SimFS()
         tmpfs.files[path] = bytearray(raw)
-        with simfs.Installed(tmpfs, None, None):
+        with simfs.LoadOnly(tmpfs):
             return h5mod.load(path)
 
     # -- running one segment -----------------------------------------------------------------
